@@ -5,7 +5,7 @@ From Coq Require Import NArith List Bool.
 Import ListNotations.
 From Coq Require Import ZArith.
 From CXV Require Import Gen.TokTy Gen.ParserTables Parse.Balanced Gen.Blocks Parse.BlocksSM.
-From CXV Require Import Base.Regex Base.Cost Gen.LexRules Lex.PlyLoop Gen.StreamTables Stream.TokBuf Fmt.TokFmt PP.Filters Misc.ReprModel Gen.Schema Parse.Fold Parse.Declarator Parse.DeclSpec Parse.EnumList Parse.BaseClause Parse.NsHeader Parse.Specs Parse.VarStmt Parse.FnTail Parse.Init Parse.Members Parse.MethodTail.
+From CXV Require Import Base.Regex Base.Cost Gen.LexRules Lex.PlyLoop Gen.StreamTables Stream.TokBuf Fmt.TokFmt PP.Filters Misc.ReprModel Gen.Schema Parse.Fold Parse.Declarator Parse.DeclSpec Parse.EnumList Parse.BaseClause Parse.NsHeader Parse.Specs Parse.VarStmt Parse.FnTail Parse.Init Parse.Members Parse.MethodTail Parse.Template.
 Open Scope N_scope.
 
 Definition nlen {A} (l : list A) : N := N.of_nat (length l).
@@ -577,8 +577,29 @@ Definition run_class_head (args : list N) : list N :=
   | [] => [1; 0]
   end.
 
+(* 96: a template parameter list (starting at '<').  Output: 0, rest length, count, then the parameters:
+   type parameter: 1, key, pack, name (0 | n+1), default (0 | 1 len tokens), inner (0 | 1 count params...)
+   non-type parameter: 2, name (0 | n+1), type length, type *)
+Fixpoint enc_tparam (p : tparam) : list N :=
+  match p with
+  | TPType key pack name default inner =>
+      1 :: key :: bN pack :: (match name with Some n => n + 1 | None => 0 end) :: enc_opt_tks default ++
+        match inner with
+        | Some l => 1 :: nlen l :: (fix go (l : list tparam) : list N := match l with [] => [] | x :: r => enc_tparam x ++ go r end) l
+        | None => [0]
+        end
+  | TPNonType t nm => let e := enc_ty t in 2 :: (match nm with Some n => n + 1 | None => 0 end) :: nlen e :: e
+  end.
+Definition run_tdecl (args : list N) : list N :=
+  let toks := dec_tks args in
+  match tdecl (4 * length toks + 8) toks with
+  | DOk (l, rest) => 0 :: nlen rest :: nlen l :: flat_map enc_tparam l
+  | DErr e => [1; e]
+  end.
+
 Definition run_case (cmd : N) (args : list N) : list N :=
   match cmd, args with
+  | 96, _ => run_tdecl args
   | 95, _ => run_class_head args
   | 94, _ => run_method_end args
   | 93, _ => run_typedef_stmt args
